@@ -233,13 +233,17 @@ def build_module(moves, free, ssa_mode):
     return ModuleOp([prod, pm, cons]), prod, pm, cons
 
 
-def run_case(moves, free, ssa_mode):
-    """Returns (status, info).  status in not-verified | reported-failure | crash | ok | bad."""
+def run_case(moves, free, ssa_mode, built=None):
+    """Returns (status, info).  status in not-verified | reported-failure | crash | ok | bad.
+    `built` = (module, producer, consumer) when the parallel move was built by somebody else (helper family)."""
     from xdsl.context import Context
     from xdsl.transforms.riscv_lower_parallel_mov import RISCVLowerParallelMovPass
     from xdsl.utils.exceptions import DiagnosticException, VerifyException
 
-    module, prod, pm, cons = build_module(moves, free, ssa_mode)
+    if built is None:
+        module, prod, _, cons = build_module(moves, free, ssa_mode)
+    else:
+        module, prod, cons = built
     try:
         module.verify()
     except VerifyException as e:
@@ -362,7 +366,7 @@ def _violate(st: Stats, sig: str, what: str, wit: dict) -> None:
         v["what"] = what
 
 
-def check_case(st: Stats, moves, free, ssa_mode, shared_kinds=None, sample=False):
+def check_case(st: Stats, moves, free, ssa_mode, shared_kinds=None, sample=False, built=None, helper=None, opwidths=None):
     """Run one case and record everything.  Returns the set of failure kinds (for attribution of the
     per-operand SSA mode: a kind already failing with shared SSA values is not reported again)."""
     moves = [tuple(x) for x in moves]
@@ -372,9 +376,17 @@ def check_case(st: Stats, moves, free, ssa_mode, shared_kinds=None, sample=False
     if feats["nonself"]:
         st.nontrivial += 1
     wit = {"moves": [list(x) for x in moves], "free": None if free is None else list(free), "ssa": ssa_mode}
-    status, info = run_case(moves, free, ssa_mode)
+    if helper is not None:
+        wit["helper"] = helper
+    status, info = run_case(moves, free, ssa_mode, built)
     kinds: set[str] = set()
     if status == "not-verified":
+        if helper is not None:  # our own inputs are only skipped; an op built by xDSL's helper must verify
+            st.executions += 1
+            st.outcomes["violation"] += 1
+            _violate(st, f"C20|riscv-lower-parallel-mov|helper={helper['entry']}|builds-op-that-does-not-verify",
+                     f"{helper['entry']} built a riscv.parallel_mov that does not verify: {info['error']}", wit)
+            return {"not-verified"}
         st.bump("skipped_not_verified")
         st.outcomes["skipped:not-verified"] += 1
         return kinds
@@ -424,6 +436,13 @@ def check_case(st: Stats, moves, free, ssa_mode, shared_kinds=None, sample=False
         pred = predicate(moves, free, ssa_mode, off, info.get("trace"))
         if off is None:
             failure = kind.replace("|", ":")
+        if helper is not None:
+            # blame the helper only for what it decides: the operand width it declared and the result registers;
+            # everything else is the lowering's doing and keeps the signature of the direct families
+            i = extra.get("operand")
+            if cls == "results" or (failure == "64-bit-value-moved-with-fmv.s" and opwidths is not None
+                                    and i is not None and opwidths[i] != moves[i][2]):
+                pred = f"helper={helper['entry']}," + pred
         _violate(st, f"C20|riscv-lower-parallel-mov|{pred}|{failure}", what, {**wit, "emitted": info.get("trace"), **extra})
     return kinds
 
@@ -445,6 +464,137 @@ def check_graph(st: Stats, moves, free, sample=False, per_operand=True):
         k = check_case(Stats(), [(s_, d_, first_w[s_]) for s_, d_, _ in moves], free, "shared")
     if (per_operand or not consistent) and len(set(srcs)) < len(srcs):
         check_case(st, moves, free, "per-operand", k, False)
+
+
+# ------------------------------------------------------------------------------------------------
+# helper family: the entry points of backend/riscv/lowering/utils.py that BUILD parallel moves
+# ------------------------------------------------------------------------------------------------
+HELPERS = ("move_to_regs", "move_to_a_regs", "move_to_unallocated_regs")
+KINDS = ("i:i32", "i:index", "i:reg", "f:f32", "f:f64", "f:reg")
+DEFAULT_FLEN = 64  # documented defaults of the helpers: float registers are 64 bits wide,
+DEFAULT_XLEN = 32  # integer registers 32
+
+
+def prescribed_width(kind: str, flen: int | None, xlen: int | None) -> int:
+    """Width at which a value of this kind must be moved (independent statement of the helpers' contract):
+    the bit width of the value type when it has one, else the width of the register it lives in."""
+    if kind == "i:i32" or kind == "f:f32":
+        return 32
+    if kind == "f:f64":
+        return 64
+    if kind.startswith("f:"):
+        return DEFAULT_FLEN if flen is None else flen
+    return DEFAULT_XLEN if xlen is None else xlen
+
+
+def abi_destinations(kinds) -> list[str]:
+    """k-th integer value -> a<k>, k-th float value -> fa<k> (separate counters, RISC-V calling convention)."""
+    out, ni, nf = [], 0, 0
+    for k in kinds:
+        if k.startswith("f:"):
+            out.append(f"fa{nf}")
+            nf += 1
+        else:
+            out.append(f"a{ni}")
+            ni += 1
+    return out
+
+
+def check_helper_case(st: Stats, entry: str, kinds, srcs, flen, xlen, sample=False) -> None:
+    from xdsl.backend.riscv.lowering import utils
+    from xdsl.dialects import builtin, riscv, test
+    from xdsl.dialects.builtin import ModuleOp
+
+    dsts = abi_destinations(kinds)
+    moves = [(s, d, prescribed_width(k, flen, xlen)) for s, d, k in zip(srcs, dsts, kinds)]
+    hinfo = {"entry": entry, "kinds": list(kinds), "flen": flen, "xlen": xlen}
+    wit = {"moves": [list(m) for m in moves], "free": None, "ssa": "shared", "helper": hinfo}
+    prod = test.TestOp(result_types=[rt(s) for s in srcs])  # sources are distinct registers: one value each
+    values = list(prod.results)
+    vtypes = []
+    for k, v in zip(kinds, values):
+        t = k.split(":")[1]
+        vtypes.append({"i32": builtin.i32, "index": builtin.IndexType(), "f32": builtin.f32, "f64": builtin.f64}.get(t, v.type))
+    kwargs = {}
+    if flen is not None:
+        kwargs["flen"] = flen
+    if xlen is not None:
+        kwargs["xlen"] = xlen
+    st.transitions += 1
+    try:
+        if entry == "move_to_regs":
+            ops, new_values = utils.move_to_regs(values, vtypes, [rt(d) for d in dsts], **kwargs)
+        else:
+            ops, new_values = getattr(utils, entry)(values, vtypes, **kwargs)
+    except Exception as e:  # noqa: BLE001
+        st.states += 1
+        st.executions += 1
+        st.outcomes[f"helper-crash:{type(e).__name__}"] += 1
+        _violate(st, f"C20|riscv-lower-parallel-mov|helper={entry}|crash:{type(e).__name__}",
+                 f"{entry} raised {type(e).__name__} on well-formed values", {**wit, "message": str(e)[:120]})
+        return
+    ops, new_values = list(ops), list(new_values)
+    pms = [o for o in ops if o.name == "riscv.parallel_mov"]
+    if len(pms) != 1 or len(ops) != 1 or new_values != list(pms[0].results):
+        # a different (possibly perfectly fine) way of building the moves: nothing this family can judge
+        st.states += 1
+        st.bump("helper_output_not_a_single_parallel_mov")
+        st.outcomes["helper:unexpected-shape"] += 1
+        return
+    pm = pms[0]
+    opwidths = [int(w) for w in pm.input_widths.get_values()]
+    got_dsts = [_regname(r.type) for r in pm.results]
+    if entry == "move_to_unallocated_regs":
+        # the helper leaves the outputs to the register allocator; play allocator: same operands, same widths,
+        # same free registers, outputs allocated to the ABI registers
+        classes_ok = all(g is None and type(r.type) is type(v.type) for g, r, v in zip(got_dsts, pm.results, values))
+        if not classes_ok:
+            st.states += 1
+            st.executions += 1
+            st.outcomes["violation"] += 1
+            _violate(st, f"C20|riscv-lower-parallel-mov|helper={entry}|outputs-not-unallocated-registers-of-the-input-class",
+                     f"{entry} produced outputs {[str(r.type) for r in pm.results]}", wit)
+            return
+        pm = riscv.ParallelMovOp(list(pm.inputs), [rt(d) for d in dsts], pm.input_widths, pm.free_registers)
+    elif got_dsts != dsts:
+        st.states += 1
+        st.executions += 1
+        st.outcomes["violation"] += 1
+        _violate(st, f"C20|riscv-lower-parallel-mov|helper={entry}|wrong-destination-registers",
+                 f"{entry} moves to {got_dsts}, expected {dsts}", {**wit, "got": got_dsts})
+        return
+    cons = test.TestOp(operands=pm.results)
+    module = ModuleOp([prod, pm, cons])
+    check_case(st, moves, None, "shared", None, sample, built=(module, prod, cons), helper=hinfo, opwidths=opwidths)
+
+
+def helper_cases(lengths, argcombos):
+    """every sequence of value kinds of the given lengths x every injective choice of source registers from
+    the pool (destination registers of the class + one outside register) x every (flen, xlen) argument combo"""
+    for n in lengths:
+        for kinds in itertools.product(KINDS, repeat=n):
+            ni = sum(1 for k in kinds if k.startswith("i:"))
+            nf = n - ni
+            ipool = [f"a{i}" for i in range(ni)] + ["t2"]
+            fpool = [f"fa{i}" for i in range(nf)] + ["ft2"]
+            for isrc in itertools.permutations(ipool, ni):
+                for fsrc in itertools.permutations(fpool, nf):
+                    ii, fi = iter(isrc), iter(fsrc)
+                    srcs = tuple(next(fi) if k.startswith("f:") else next(ii) for k in kinds)
+                    for flen, xlen in argcombos:
+                        yield kinds, srcs, flen, xlen
+
+
+def _helper_shard(task) -> Stats:
+    st = Stats()
+    entry, n, first_kind, argcombos, seed = task
+    count = 0
+    for kinds, srcs, flen, xlen in helper_cases((n,), argcombos):
+        if kinds[0] != first_kind:
+            continue
+        count += 1
+        check_helper_case(st, entry, kinds, srcs, flen, xlen, sample=(count + seed * 31) % 1499 == 0)
+    return st
 
 
 # ------------------------------------------------------------------------------------------------
@@ -487,6 +637,10 @@ def interleavings(a, b, all_orders):
             if out[i] is None:
                 out[i] = next(ib)
         yield tuple(out)
+
+
+def _dispatch(task) -> Stats:
+    return _helper_shard(task[1]) if isinstance(task, tuple) and task[0] == "helper" else _shard(task)
 
 
 def _shard(task) -> Stats:
@@ -625,8 +779,22 @@ def run(ctx):
     tasks, fam = make_tasks(ctx)
     # big shards first so the pool drains evenly
     tasks.sort(key=lambda t: -(len(t["idsts"]) * 10 + len(t["fdsts"]) * 7))
+    tasks = list(tasks)
     best: dict[str, dict] = {}
-    for _, st in pmap(_shard, tasks):
+    all9 = tuple((f, x) for f in (None, 32, 64) for x in (None, 32, 64))
+    if ctx.quick:
+        hplan = {1: all9, 2: all9, 3: ((None, None), (32, None), (64, None), (None, 64))}
+    else:
+        hplan = {1: all9, 2: all9, 3: all9, 4: ((None, None),)}
+    htasks = [("helper", (e, n, k0, hargs, ctx.seed)) for e in HELPERS for n, hargs in hplan.items() for k0 in KINDS]
+    tasks = tasks + htasks
+    fam.append({"family": "helper entry points " + ", ".join(HELPERS),
+                "values": "every sequence of n value kinds out of " + "/".join(KINDS),
+                "sources": "every injective choice from {destination a-/fa-registers of the class, one outside register t2/ft2}",
+                "(flen, xlen) argument combos per n (None = default)": {str(n): [list(a) for a in v] for n, v in hplan.items()},
+                "destinations": "a<k>/fa<k> (given explicitly to move_to_regs; assigned by the harness as 'register allocator' "
+                                "to the unallocated outputs of move_to_unallocated_regs)", "shards": len(htasks)})
+    for _, st in pmap(_dispatch, tasks):
         for sig, v in st.violations.items():
             if sig not in best or _wkey(v["witness"]) < _wkey(best[sig]["witness"]):
                 best[sig] = v
@@ -648,6 +816,9 @@ def run(ctx):
                        "symmetric difference, zero is constant) models the emitted RISC-V ops",
                        "a value of SSA register type !riscv.reg<r> lives in register r (what the assembly printer does)",
                        "raising a DiagnosticException subclass counts as 'the pass reports failure'",
+                       "helper family: a value is moved at the bit width of its value type, or at the register width (flen "
+                       "default 64, xlen default 32, or the explicit argument) when the type has none; destinations follow the "
+                       "a<k>/fa<k> convention; the harness plays register allocator for move_to_unallocated_regs",
                        "well-formed input: operands that share one SSA value are declared with one width (mixed widths on one "
                        "register are exercised with one SSA value per operand)"]
 
@@ -656,5 +827,9 @@ def replay(rep) -> bool:
     w = rep["witness"]
     st = Stats()
     _selftest()
-    check_graph(st, [tuple(x) for x in w["moves"]], None if w["free"] is None else tuple(w["free"]))
+    if "helper" in w:
+        h = w["helper"]
+        check_helper_case(st, h["entry"], tuple(h["kinds"]), tuple(m[0] for m in w["moves"]), h["flen"], h["xlen"])
+    else:
+        check_graph(st, [tuple(x) for x in w["moves"]], None if w["free"] is None else tuple(w["free"]))
     return rep["signature"] not in st.violations
